@@ -3,6 +3,7 @@ package props
 import (
 	"context"
 	"fmt"
+	"strings"
 	"testing/synctest"
 	"time"
 
@@ -177,6 +178,15 @@ func runC16(c *core.Ctx) {
 			if s.Cancelled && s.Started && !s.Ended {
 				// the node closed the block reader on cancel: the stream ends
 				acts = append(acts, action{fmt.Sprintf("source%d stream ends (cancelled)", s.N), func() { endStream(s) }})
+				if faulty && !s.Dropped {
+					// the peer connection can also go away right after the cancel
+					acts = append(acts, action{fmt.Sprintf("source%d drops after cancel", s.N), func() {
+						c.Fault("source:drop-after-cancel")
+						s.Dropped = true
+						endStream(s)
+						s.OnStop(ctx)
+					}})
+				}
 				continue
 			}
 			if !s.Started {
@@ -191,6 +201,15 @@ func runC16(c *core.Ctx) {
 					}
 					serving[s] = b
 					startHandler(s, b)
+					if faulty && !interrupted && t.Chance(1, 10) {
+						// shutdown in the very instant the block starts to arrive: Run finds both its
+						// start signal and the interrupt ready
+						interrupted = true
+						c.Fault("shutdown")
+						c.Probe("handler-start-and-shutdown-same-instant")
+						c.Event("shutdown (same instant)")
+						close(interrupt)
+					}
 				}})
 				if faulty {
 					acts = append(acts, action{fmt.Sprintf("source%d drops before start", s.N), func() {
@@ -227,6 +246,9 @@ func runC16(c *core.Ctx) {
 		}
 		if faulty && cur != nil && len(cur.signals) == 0 && !cur.aborted && cur.abort != nil {
 			acts = append(acts, action{"requester aborts", func() {
+				if cur.aborted {
+					return
+				}
 				cur.aborted = true
 				c.Fault("request:abort")
 				close(cur.abort)
@@ -242,6 +264,9 @@ func runC16(c *core.Ctx) {
 		}
 		if faulty && !interrupted {
 			acts = append(acts, action{"shutdown", func() {
+				if interrupted {
+					return
+				}
 				interrupted = true
 				c.Fault("shutdown")
 				close(interrupt)
@@ -273,6 +298,15 @@ func runC16(c *core.Ctx) {
 		}
 		c.Event("%s", acts[i].name)
 		acts[i].f()
+		if faulty && len(acts) > 1 && t.Chance(1, 5) {
+			// a second action in the same instant, before anything has reacted to the first
+			j := t.Draw(len(acts))
+			if j != i && compatible(acts[i].name, acts[j].name) {
+				c.Event("%s (same instant)", acts[j].name)
+				c.Probe("two-actions-same-instant")
+				acts[j].f()
+			}
+		}
 	}
 
 	for i := 0; i < steps; i++ {
@@ -330,6 +364,17 @@ func runC16(c *core.Ctx) {
 		synctest.Wait()
 		collect()
 		for _, s := range req.All() { // a cancelled running stream ends; unstarted sources never call
+			if !s.Dropped && !s.Returned && t.Chance(1, 3) {
+				// the peer connection goes away during shutdown
+				s.Dropped = true
+				c.Fault("source:drop-during-shutdown")
+				c.Event("source%d drops during shutdown", s.N)
+				if s.Started && !s.Ended {
+					endStream(s)
+				}
+				s.OnStop(ctx)
+				continue
+			}
 			if s.Started && !s.Ended {
 				endStream(s)
 			}
@@ -364,6 +409,13 @@ func runC16(c *core.Ctx) {
 	}
 }
 
+// compatible: two actions may be taken in one instant when they do not both act on the same source's
+// stream (the closures check their own preconditions only at selection time).
+func compatible(a, b string) bool {
+	sa, sb := strings.SplitN(a, " ", 2)[0], strings.SplitN(b, " ", 2)[0]
+	return sa != sb
+}
+
 func init() {
 	core.Register(&core.Property{
 		ID: "C16", Engine: "G", Level: "exploration", Bubble: true,
@@ -371,8 +423,8 @@ func init() {
 		Real: blockReal, Stub: blockStub,
 		Assumptions: []string{"interleavings are controlled at the granularity of source/requester/timer actions; between two quiescent points woken goroutines run in the Go runtime's order and a select with several ready cases is resolved by the runtime (not replayable from the tape); the oracles are order independent",
 			"a requester stops listening when shutdown is signalled, as NodeManager.synchronizeBlocks does"},
-		FaultKinds: []string{"source:not-available", "source:wrong-block", "source:drop-before-start", "source:stream-cut", "source:drop-mid-block", "request:abort", "shutdown"},
-		ProbeNames: []string{"terminal:completed", "terminal:value:Block Aborted", "abort-acknowledged", "abort-and-shutdown-same-instant"},
+		FaultKinds: []string{"source:not-available", "source:wrong-block", "source:drop-before-start", "source:stream-cut", "source:drop-mid-block", "request:abort", "shutdown", "source:drop-during-shutdown", "source:drop-after-cancel"},
+		ProbeNames: []string{"terminal:completed", "terminal:value:Block Aborted", "abort-acknowledged", "abort-and-shutdown-same-instant", "two-actions-same-instant", "handler-start-and-shutdown-same-instant"},
 		Run:          runC16,
 		QuickSeconds: 25, ThoroughSeconds: 900, MinRuns: 300, BatchSize: 25, RunTimeoutSeconds: 300,
 	})
